@@ -486,6 +486,9 @@ func rejections() *core.Family {
 	add("@a(\"1\") @a(\"2\") permit(principal, action, resource);", "@a(\"1\") @b(\"2\") @a(\"3\") permit(principal, action, resource);")
 	add("@a(1) permit(principal, action, resource);", "@a permit(principal, action, resource);", "@\"a\"(\"1\") permit(principal, action, resource);", "@a(\"1\", \"2\") permit(principal, action, resource);")
 	add(expr("{a: 1, a: 2} == context"), expr("{a: 1, \"a\": 2} == context"), expr("{\"a\": 1, b: 2, \"a\": 3} == context"))
+	// the same key / annotation spelled differently: duplicates are decided on the decoded name
+	add(expr(`{"k": 1, "\u{6b}": 2} == context`), expr(`{k: 1, "\x6b": 2} == context`), expr(`{"a\tb": 1, "a\u{9}b": 2} == context`), expr(`{"it's": 1, "it\'s": 2} == context`), expr(`{"\u{e9}": 1, "é": 2} == context`),
+		expr(`{"k": 1, b: {"k": 1, "\x6b": 2}} == context`), expr(`[{k: 1, "k": 2}] == context`), expr(`{a: 1, b: 2, c: 3, d: 4, e: 5, f: 6, g: 7, h: 8, i: 9, a: 10} == context`))
 	for _, n := range ExtNames() {
 		if ExtIsMethod[n] {
 			add(expr(n + "(principal)")) // method called as a function
